@@ -32,7 +32,7 @@ type profile struct {
 }
 
 var baseProfile = profile{name: "base", minReps: 2, maxReps: 4, minOps: 8, maxOps: 30,
-	pBounded: 0, pIter: 0, pSetID: 0.02, pPublish: 0.03, pDenyLog: 0, pOtherID: 0.15, pEmptyRep: 0.3, pShareIdent: 0.35, pNeutralJoin: 0.05,
+	pBounded: 0, pIter: 0, pSetID: 0.02, pPublish: 0.03, pDenyLog: 0, pOtherID: 0.15, pEmptyRep: 0.3, pShareIdent: 0.35, pNeutralJoin: 0.05, pOpen: 0.03,
 	sorts: []string{"lww", "lww", "hash"}, pcs: []int{0, 1, 1, 2, 4, 8, 16, 64}, finale: true}
 
 // generator state kept across calls
@@ -153,6 +153,9 @@ func (g *genState) next(h *histRun, i int) *hop {
 			}
 		}
 		o := &hop{Kind: "open", Src: src, Keep: keep, Ident: pick(rng, identNames), Sort: h.w.reps[src].sort}
+		if rng.Intn(6) == 0 {
+			o.LogID = "M" // opened under another id than the one its entries carry (LogOptions.ID is the caller's)
+		}
 		if rng.Float64() < g.p.pDenyLog {
 			o.Deny = []string{pick(rng, identNames)}
 		}
@@ -363,12 +366,17 @@ func replayGen(ops []hop) func(h *histRun, i int) *hop {
 
 // convergence monitor at the end of a history with a finale (C01)
 func (h *histRun) monitorConvergence() {
+	if h.opens > 0 {
+		// the finale exchanges the original replicas only; replicas opened over selections of entries (and
+		// whoever merged them) are outside the histories C01 quantifies over
+		return
+	}
 	w := h.w
 	last := len(h.ops) - 1
 	var base *replica
 	var baseEntries, baseHeads, baseValues []string
 	for r, rep := range w.reps {
-		if rep.logID != "L" || !h.unbounded[r] || h.joinFailed[r] || rep.log.Len() == 0 {
+		if rep.logID != "L" || rep.opened || !h.unbounded[r] || h.joinFailed[r] || rep.log.Len() == 0 {
 			continue
 		}
 		skip := false
@@ -667,6 +675,7 @@ func init() {
 	p6.name = "acl"
 	p6.pDenyLog = 0.5
 	p6.pSetID = 0.06
+	p6.pOpen = 0
 	register("C06", runLogProp(logRunCfg{prop: "C06", profile: p6, nQuick: 150, nThorough: 3000, perShard: 12}))
 	p3 := p
 	p3.name = "base+acl"
@@ -694,6 +703,7 @@ func init() {
 	p15.name = "iterator"
 	p15.pIter = 0.3
 	p15.finale = false
+	p15.pOpen = 0
 	register("C15", runLogProp(logRunCfg{prop: "C15", profile: p15, nQuick: 150, nThorough: 3000, perShard: 12}))
 	p17 := p
 	p17.name = "store"
@@ -702,5 +712,6 @@ func init() {
 	p17.pShareIdent = 0.6
 	p17.pFault = 0.12
 	p17.pPin = 0.3
+	p17.pOpen = 0
 	register("C17", runLogProp(logRunCfg{prop: "C17", profile: p17, nQuick: 150, nThorough: 3000, perShard: 12}))
 }
